@@ -238,6 +238,39 @@ def conforms(t, decl):
         return False
 
 
+_TRUTH = {}
+
+
+def truthiness(t):
+    """-> (can be true, can be false, exception class name raised by bool() or None) for values of atom t."""
+    if t in _TRUTH:
+        return _TRUTH[t]
+    if t is NoneT:
+        r = (False, True, None)
+    elif t is Val:
+        r = (True, True, None)
+    else:
+        ss = samples_for(t)
+        if ss is None:
+            r = (True, True, None)
+        else:
+            can_t = can_f = False
+            exc = None
+            for x in ss:
+                try:
+                    if x:
+                        can_t = True
+                    else:
+                        can_f = True
+                except Exception as e:   # noqa: BLE001
+                    exc = type(e).__name__
+            if exc and not (can_t or can_f):
+                can_t = can_f = True
+            r = (can_t or not can_f, can_f, exc)
+    _TRUTH[t] = r
+    return r
+
+
 def samples_for(t, edge=False):
     if t in SAMPLES:
         return SAMPLES[t] + (EDGE_SAMPLES.get(t, []) if edge else [])
@@ -510,7 +543,7 @@ class Interp:
         return self._comp(e, env, frame, dict, e.value)
 
     def e_IfExp(self, e, env, frame):
-        self.ev(e.test, env, frame)
+        self.truth_test(self.ev(e.test, env, frame), frame, e.test)
         t_env, f_env = self.refine(e.test, env, frame)
         vals = []
         if t_env is not None:
@@ -546,6 +579,8 @@ class Interp:
                 break
             v = self.ev(x, cur, frame)
             last = i == len(e.values) - 1
+            if not last:
+                self.truth_test(v, frame, x)
             t_env, f_env = self.refine(x, cur, frame)
             if isinstance(e.op, ast.And):
                 # value escapes here only when falsy (or last)
@@ -561,14 +596,24 @@ class Interp:
         a = atoms_of(v)
         if a is TOP:
             return TOP
-        return frozenset(t for t in a if t is NoneT or samples_for(t) is None or any(not s for s in samples_for(t)))
+        return frozenset(t for t in a if truthiness(t)[1])
 
     @staticmethod
     def _truthy_part(v):
         a = atoms_of(v)
         if a is TOP:
             return TOP
-        return frozenset(t for t in a if t is not NoneT)
+        return frozenset(t for t in a if truthiness(t)[0])
+
+    def truth_test(self, v, frame, node=None):
+        """Record the effect of using `v` in a boolean context (Inventory.__bool__ raises)."""
+        a = atoms_of(v)
+        if a is TOP:
+            return
+        for t in a:
+            exc = truthiness(t)[2]
+            if exc:
+                frame.raises.add(Raised(exc, 'bool()', (t.__name__,), True, getattr(node, 'lineno', 0)))
 
     def e_Compare(self, e, env, frame):
         l = self.ev(e.left, env, frame)
@@ -1091,7 +1136,7 @@ class Interp:
             v = self.ev(test, env, Frame())
             va = atoms_of(v)
             if va is not TOP and not isinstance(v, (Tup, Coll, Struct)):
-                tv = frozenset(x for x in va if x is not NoneT)
+                tv = self._truthy_part(va)
                 fv = self._falsy_part(va)
                 t[p], f[p] = tv, fv
                 return (t if tv else None), (f if fv else None)
@@ -1218,7 +1263,7 @@ class Interp:
         return env
 
     def s_If(self, st, env, frame):
-        self.ev(st.test, env, frame)
+        self.truth_test(self.ev(st.test, env, frame), frame, st.test)
         t, f = self.refine(st.test, env, frame)
         a = self.exec_block(st.body, t, frame) if t is not None else None
         b = self.exec_block(st.orelse, f, frame) if f is not None else None
